@@ -1,4 +1,9 @@
 import SgVerif.C26.Lemmas
+import SgVerif.C26.FatTreeLemmas
+import SgVerif.C26.DragonflyLemmas
+import SgVerif.C26.DragonflyWiring
+import SgVerif.C26.FatTreeBuild
+import SgVerif.C26.TorusLinks
 /-
 C26 — Structured topologies follow their routing algorithms.  Property theorems (nothing else in this file).
 Every theorem is for ALL shapes (any number of dimensions, any sizes >= 1) and all node pairs: no enumeration.
@@ -100,6 +105,172 @@ example : ({ dims := [4], lb := false, lim := false } : Torus).hops 2 0 = some [
 example : ({ dims := [4], lb := false, lim := false } : Torus).hops 3 1 = some [⟨3, 0, 0, true⟩, ⟨0, 1, 0, true⟩] := by decide
 
 
+/-! ### Torus: the LINKS returned by `get_local_route` (the `private_links_` position arithmetic)
+
+`Torus.route = routeWith t t.seal`: the table is the sequence of `try_emplace` calls of `do_seal` (`fill_leaf_from_cb`'s
+loopback / limiter entries, `create_torus_links` entries at `node_pos_with_loopback_limiter(id) + j`, with
+`num_links_per_node_` growing while the first leaf is filled), read back by `get_uplink_from` / `get_downlink_to` at the
+positions `get_local_route` computes.  All theorems: every well-formed shape (incl. dimensions of size 1, any number of
+dimensions), every loopback/limiter configuration, every pair of nodes. -/
+
+/-- closed form of the link list: for every hop of the dimension-ordered walk, the limiter of the current node (when
+limiters are configured) then the cable — `hopCable`: going right the UP half of `<zone>_link_from_<cur>_to_<next>`, going
+left the DOWN half of `<zone>_link_from_<next>_to_<cur>` — and at the end the limiter of the destination -/
+def Torus.specLinks (t : Torus) (src dst : Nat) : List TLink := linksOfHops t.lim dst (t.specHops src dst)
+
+/-- **the links of the route**: sealing then routing never throws (`.at`) and yields exactly the closed form, for every
+pair that is not answered by the loopback shortcut -/
+theorem torus_route_links (t : Torus) (hwf : t.WF) (src dst : Nat) (hs : src < t.tot) (hd : dst < t.tot)
+    (hnl : ¬ (src = dst ∧ t.lb = true)) : t.route src dst = some (t.specLinks src dst) :=
+  route_links t hwf src dst hs hd hnl
+
+/-- **loopback**: with a loopback callback, `src -> src` is the loopback link of `src` and nothing else (no limiter) -/
+theorem torus_loopback (t : Torus) (hwf : t.WF) (src : Nat) (hs : src < t.tot) (hlb : t.lb = true) :
+    t.route src src = some [TLink.loopback src] :=
+  route_loopback t hwf src hs hlb
+
+/-- without loopback callback, `src -> src` has no cable: only the (receiver) limiter of `src` when limiters are configured -/
+theorem torus_self_without_loopback (t : Torus) (hwf : t.WF) (src : Nat) (hs : src < t.tot) (hlb : t.lb = false) :
+    t.route src src = some (if t.lim then [TLink.limiter src] else []) := by
+  rw [torus_route_links t hwf src src hs hs (by simp [hlb])]
+  have : t.specHops src src = [] := specR_self _ _ (torus_tri_facts t hwf src src).1
+  simp [Torus.specLinks, this, linksOfHops]
+
+/-- **every link leaves the current node**: reading the route from `src`, each cable is the UP half of a link declared by
+the node the walk is on, or the DOWN half of a link declared towards it, each limiter is the limiter of the node the walk
+is on, and the walk ends on `dst` (`linkWalk` returns `none` as soon as a link does not fit) -/
+theorem torus_links_leave_current_node (t : Torus) (hwf : t.WF) (src dst : Nat) (hs : src < t.tot) (hd : dst < t.tot)
+    (hnl : ¬ (src = dst ∧ t.lb = true)) :
+    ∃ r, t.route src dst = some r ∧ linkWalk src r = some dst := by
+  obtain ⟨h1, _, h3, _, _⟩ := torus_tri_facts t hwf src dst
+  refine ⟨_, torus_route_links t hwf src dst hs hd hnl, ?_⟩
+  exact linkWalk_hops t.lim _ src dst (specR_chain _ src dst h1 (by rw [h3]; exact hs) (by rw [h3]; exact hd))
+
+/-- **the cables are the links between consecutive nodes of the chain `src .. dst`, in order**: the cable links of the
+route are, hop by hop, `hopCable` of the hops computed by the `while` loop, which chain from `src` to `dst` -/
+theorem torus_links_chain (t : Torus) (hwf : t.WF) (src dst : Nat) (hs : src < t.tot) (hd : dst < t.tot)
+    (hnl : ¬ (src = dst ∧ t.lb = true)) :
+    ∃ hops r, t.hops src dst = some hops ∧ t.route src dst = some r ∧ Chain src hops dst ∧
+      r.filter TLink.isCable = hops.map hopCable := by
+  obtain ⟨h1, _, h3, _, _⟩ := torus_tri_facts t hwf src dst
+  exact ⟨_, _, torus_hops_spec t hwf src dst hs hd, torus_route_links t hwf src dst hs hd hnl,
+    specR_chain _ src dst h1 (by rw [h3]; exact hs) (by rw [h3]; exact hd), linksOfHops_cables _ _ _⟩
+
+/-- **length**: the route has `Σ_j min(f_j, d_j - f_j)` cable links; with limiters one limiter before each cable and one
+at the end, without limiters nothing else -/
+theorem torus_links_length (t : Torus) (hwf : t.WF) (src dst : Nat) (hs : src < t.tot) (hd : dst < t.tot)
+    (hnl : ¬ (src = dst ∧ t.lb = true)) :
+    ∃ r, t.route src dst = some r ∧ (r.filter TLink.isCable).length = (t.minDist src dst).sum ∧
+      r.length = if t.lim then 2 * (t.minDist src dst).sum + 1 else (t.minDist src dst).sum := by
+  obtain ⟨h1, h2, _, _, _⟩ := torus_tri_facts t hwf src dst
+  have hlen : (t.specHops src dst).length = (t.minDist src dst).sum := by
+    rw [Torus.specHops, specR_length _ _ h2, distList_eq_minList _ _ _ h1 h2]; rfl
+  refine ⟨_, torus_route_links t hwf src dst hs hd hnl, ?_, ?_⟩
+  · rw [Torus.specLinks, linksOfHops_cables, List.length_map, hlen]
+  · rw [Torus.specLinks, linksOfHops_length, hlen]
+
+/-- **limiter placement**: without limiter callback the route is the cables only; with one, it is
+`limiter(cur), cable` for every hop and `limiter(dst)` at the end — so the limiters of the route are, in order, those of
+the nodes `src = n0, n1, ..., dst` of the chain (the destination's appears once) -/
+theorem torus_limiter_placement (t : Torus) (hwf : t.WF) (src dst : Nat) (hs : src < t.tot) (hd : dst < t.tot)
+    (hnl : ¬ (src = dst ∧ t.lb = true)) :
+    ∃ hops r, t.hops src dst = some hops ∧ t.route src dst = some r ∧
+      (t.lim = false → r = hops.map hopCable) ∧
+      (t.lim = true → r = hops.flatMap (fun h => [TLink.limiter h.cur, hopCable h]) ++ [TLink.limiter dst]) ∧
+      r.filter TLink.isLimiter = (if t.lim then hops.map (fun h => TLink.limiter h.cur) ++ [TLink.limiter dst] else []) := by
+  refine ⟨_, _, torus_hops_spec t hwf src dst hs hd, torus_route_links t hwf src dst hs hd hnl, ?_, ?_,
+    linksOfHops_limiters _ _ _⟩
+  · intro hl
+    have : hopSegment false = fun h => [hopCable h] := by funext h; simp [hopSegment]
+    simp [Torus.specLinks, linksOfHops, hl, this, List.map_eq_flatMap]
+  · intro hl
+    have : hopSegment true = fun h => [TLink.limiter h.cur, hopCable h] := by funext h; simp [hopSegment]
+    simp [Torus.specLinks, linksOfHops, hl, this]
+
+/-- **loopback placement**: for EVERY pair, a loopback link occurs in the route iff `src = dst` and a loopback callback
+is set, and then it is the loopback of `src` (and by `torus_loopback` the whole route) -/
+theorem torus_loopback_placement (t : Torus) (hwf : t.WF) (src dst : Nat) (hs : src < t.tot) (hd : dst < t.tot) :
+    ∃ r, t.route src dst = some r ∧ ∀ id, TLink.loopback id ∈ r ↔ (src = dst ∧ t.lb = true ∧ id = src) := by
+  by_cases hl : src = dst ∧ t.lb = true
+  · obtain ⟨rfl, hlb⟩ := hl
+    refine ⟨_, torus_loopback t hwf src hs hlb, ?_⟩
+    intro id; simp [hlb]
+  · refine ⟨_, torus_route_links t hwf src dst hs hd hl, ?_⟩
+    intro id
+    constructor
+    · intro hm
+      have : TLink.loopback id ∈ (t.specLinks src dst).filter TLink.isLoopback :=
+        List.mem_filter.mpr ⟨hm, rfl⟩
+      rw [Torus.specLinks, linksOfHops_no_loopback] at this
+      simp at this
+    · intro h; exact absurd ⟨h.1, h.2.1⟩ hl
+
+/-- **the `private_links_` table built by `do_seal`**: the counters end as `dims.size() + (loopback?1:0) + (limiter?1:0)`
+(although they grow while the first leaf is filled), and for every leaf `i` the position `node_pos(i)` holds its loopback,
+`node_pos_with_loopback(i)` its limiter, `node_pos_with_loopback_limiter(i) + j` the two halves of the link it declares
+towards its neighbour along dimension `j` (`Torus.neighbour` = the `neighbor_rank_id` formula) — no entry of another leaf
+shadows them (`try_emplace` keeps the first writer; blocks of different leaves are disjoint) -/
+theorem torus_private_links_table (t : Torus) (hwf : t.WF) (i : Nat) (hi : i < t.tot) :
+    t.seal.1 = { numLinks := t.dims.length + (if t.lb then 1 else 0) + (if t.lim then 1 else 0), hasLb := t.lb, hasLim := t.lim } ∧
+    (t.lb = true → Entries.at t.seal.2 (t.seal.1.nodePos i) = some (TLink.loopback i, TLink.loopback i)) ∧
+    (t.lim = true → Entries.at t.seal.2 (t.seal.1.nodePosLb i) = some (TLink.limiter i, TLink.limiter i)) ∧
+    (∀ j, j < t.dims.length → Entries.at t.seal.2 (t.seal.1.nodePosLbLim i + j)
+        = (t.neighbour i j).map (fun nb => (TLink.cable i nb true, TLink.cable i nb false))) := by
+  rw [seal_eq t (prod_pos _ hwf)]
+  exact ⟨rfl, sealed_table t i hi⟩
+
+/-- **every cable of the route is a declared link between consecutive nodes**: for each hop of the route (whose cables are
+`hops.map hopCable` by `torus_links_chain`), going right `next` is the neighbour that `cur` declared a link to in the hop's
+dimension, going left `cur` is the neighbour that `next` declared a link to -/
+theorem torus_links_declared (t : Torus) (hwf : t.WF) (src dst : Nat) (hs : src < t.tot) (hd : dst < t.tot) :
+    ∃ hops, t.hops src dst = some hops ∧ ∀ h ∈ hops, h.dim < t.dims.length ∧
+      (if h.up then t.neighbour h.cur h.dim = some h.next else t.neighbour h.next h.dim = some h.cur) := by
+  obtain ⟨_, _, _, h4, h5⟩ := torus_tri_facts t hwf src dst
+  have hh := torus_hops_spec t hwf src dst hs hd
+  refine ⟨_, hh, ?_⟩
+  intro h hm
+  apply hop_declared t dst (t.tri src dst) h4 h5 h
+  unfold Torus.hops at hh
+  exact hopsLoop_mem_scan dst _ _ _ _ hh h hm
+
+/-- non-vacuity: 4x4 torus with loopback and limiter callbacks, 5 -> 15 (ties in both dimensions: 4 UP cables, each
+preceded by the limiter of the node it leaves, then the limiter of 15) -/
+example : ({ dims := [4, 4], lb := true, lim := true } : Torus).route 5 15
+    = some [.limiter 5, .cable 5 6 true, .limiter 6, .cable 6 7 true, .limiter 7, .cable 7 11 true,
+            .limiter 11, .cable 11 15 true, .limiter 15] := by decide
+/-- going left: [3,2] torus, 5 -> 0 is (2,1) -> (0,0): dimension 0 goes right through the wrap-around (UP half of the link
+declared by 5 towards 3), dimension 1 (size 2, coordinate 1 -> 0) goes LEFT: the DOWN half of the link declared by the NEXT
+node 0 towards 3 -/
+example : ({ dims := [3, 2], lb := true, lim := true } : Torus).route 5 0
+    = some [.limiter 5, .cable 5 3 true, .limiter 3, .cable 0 3 false, .limiter 0] := by decide
+example : ({ dims := [3, 2], lb := true, lim := true } : Torus).specLinks 5 0
+    = [.limiter 5, .cable 5 3 true, .limiter 3, .cable 0 3 false, .limiter 0] := by decide
+example : ({ dims := [4], lb := false, lim := false } : Torus).route 2 0
+    = some [.cable 1 2 false, .cable 0 1 false] := by decide
+/-- loopback shortcut, and the same pair without loopback callback -/
+example : ({ dims := [3, 2], lb := true, lim := true } : Torus).route 4 4 = some [.loopback 4] := by decide
+example : ({ dims := [3, 2], lb := false, lim := true } : Torus).route 4 4 = some [.limiter 4] := by decide
+example : ({ dims := [3, 2], lb := false, lim := false } : Torus).route 4 4 = some [] := by decide
+/-- the hypotheses of the theorems are met by these instances -/
+example : ({ dims := [3, 2], lb := true, lim := true } : Torus).WF ∧
+    (5 : Nat) < ({ dims := [3, 2], lb := true, lim := true } : Torus).tot ∧
+    ¬ ((5 : Nat) = 0 ∧ ({ dims := [3, 2], lb := true, lim := true } : Torus).lb = true) := by
+  refine ⟨by intro d hd; simp at hd; omega, by decide, by decide⟩
+example : linkWalk 5 [.limiter 5, .cable 5 3 true, .limiter 3, .cable 0 3 false, .limiter 0] = some 0 := by decide
+/-- a link that does not leave the current node is refused by `linkWalk` -/
+example : linkWalk 2 [.cable 0 2 true] = none := by decide
+/-- the table of the [3,2] torus with both callbacks: 4 positions per node; node 2 owns 8..11 -/
+example : (({ dims := [3, 2], lb := true, lim := true } : Torus).seal.1.numLinks = 4) ∧
+    Entries.at ({ dims := [3, 2], lb := true, lim := true } : Torus).seal.2 8 = some (.loopback 2, .loopback 2) ∧
+    Entries.at ({ dims := [3, 2], lb := true, lim := true } : Torus).seal.2 9 = some (.limiter 2, .limiter 2) ∧
+    Entries.at ({ dims := [3, 2], lb := true, lim := true } : Torus).seal.2 10 = some (.cable 2 0 true, .cable 2 0 false) ∧
+    Entries.at ({ dims := [3, 2], lb := true, lim := true } : Torus).seal.2 11 = some (.cable 2 5 true, .cable 2 5 false) := by
+  decide
+example : ({ dims := [3, 2], lb := true, lim := true } : Torus).neighbour 2 0 = some 0 ∧
+    ({ dims := [3, 2], lb := true, lim := true } : Torus).neighbour 0 1 = some 3 := by decide
+/-- a one-node torus with a dimension of size 1 -/
+example : ({ dims := [1], lb := true, lim := true } : Torus).route 0 0 = some [.loopback 0] := by decide
+
 /-! ## Star (StarZone::get_local_route) -/
 
 /-- **up links of the source, then down links of the destination, without repetition**: for every table and every pair
@@ -164,5 +335,185 @@ which is disconnected: the green link of chassis 1 ends on router 3 = (0,1,1), n
 theorem dragonfly_same_group_regression :
     (⟨1, 2, 2, 1, false, false, true, 0⟩ : Dragonfly).steps ⟨0, 1, 0⟩ ⟨0, 0, 1⟩ =
       [⟨2, .green 1, true, 3⟩, ⟨3, .black 0, true, 3⟩] := by decide
+
+/-- **the documented hop structure**, exactly: for every shape with `groups <= routers per chassis` (what
+`add_netzone_dragonfly` accepts) and every pair of router coordinates within the shape, the control flow of
+get_local_route yields `specSteps`: towards another group `[green to the blade numbered like the target group]?
+[black to chassis 0]? blue [green to the target blade]? [black to the target chassis]?`, inside a group
+`[green to the target blade]? [black to the target chassis]?`, each hop present iff the coordinate it fixes differs -/
+theorem dragonfly_hop_structure (d : Dragonfly) (my tg : RCoord) (hmy : my.InRange d) (htg : tg.InRange d)
+    (hGB : d.G ≤ d.B) : d.steps my tg = d.specSteps my tg :=
+  steps_eq_spec d my tg hmy htg hGB
+
+/-- **connectivity** (repaired code): every hop is read from the link arrays of the router the walk is on (a valid index
+of `routers_`), the link in that slot leads — by the wiring of generate_links, `Dragonfly.peer` — to the router the next
+hop is read from, and the last one leads to the target router; the first hop leaves from the source router -/
+theorem dragonfly_connected (d : Dragonfly) (my tg : RCoord) (hmy : my.InRange d) (htg : tg.InRange d) (hGB : d.G ≤ d.B) :
+    DConnected d (d.ridx my) (d.steps my tg) (d.ridx tg) := by
+  rw [steps_eq_spec d my tg hmy htg hGB]
+  exact specSteps_connected d my tg hmy htg hGB
+
+/-- the same for the routers of two leaves `src`, `dst < G*C*B*N` (the coordinates `rankId_to_coords` computes are within
+the shape): this is the list of hops `Dragonfly.route` renders between the source's and the target's local links -/
+theorem dragonfly_route_connected (d : Dragonfly) (hGB : d.G ≤ d.B) (src dst : Nat) (hs : src < d.tot) (hd : dst < d.tot) :
+    (d.coords src).1.InRange d ∧ (d.coords dst).1.InRange d ∧
+    DConnected d (d.ridx (d.coords src).1) (d.steps (d.coords src).1 (d.coords dst).1) (d.ridx (d.coords dst).1) :=
+  ⟨coords_inRange d src hs, coords_inRange d dst hd,
+   dragonfly_connected d _ _ (coords_inRange d src hs) (coords_inRange d dst hd) hGB⟩
+
+/-- **the link tables are wired as `peer` says**, for every shape with `groups <= routers per chassis` (any G, C, B, N, flags,
+static unique-id offset): for every router `r` and inter-router slot `s` with `peer r s = some q`, the tables built by
+`genLinks` (the four nested loops of generate_links, last assignment wins) hold in slot `s` of `r` and in the back slot
+of `q` the two halves — same name and unique id, opposite direction — of one link.  (Green and black need no shape
+hypothesis; `G <= C*B` is what blue needs: `genLinks_wiring_CB`.) -/
+theorem dragonfly_wiring (d : Dragonfly) (hGB : d.G ≤ d.B) (r : Nat) (hr : r < d.nRouters) (s : DSlot) (q : Nat)
+    (hq : d.peer r s = some q) :
+    ∃ l, d.linkAt d.genLinks.2 r s = some l ∧ d.linkAt d.genLinks.2 q (d.backSlot r s) = some l.flip :=
+  genLinks_wiring d hGB r hr s q hq
+
+/-- **connectivity on the link TABLES**: every hop's slot holds a link (no nullptr, no out-of-bounds read) whose other
+half sits in the back slot of the router the next hop leaves from; the chain starts on the source router and ends on the
+target router.  (Promoted: the hypothesis `d.wiringOk = true` of the first version is now the theorem `dragonfly_wiring`.) -/
+theorem dragonfly_hops_are_links (d : Dragonfly) (my tg : RCoord) (hmy : my.InRange d)
+    (htg : tg.InRange d) (hGB : d.G ≤ d.B) : DLinked d (d.ridx my) (d.steps my tg) (d.ridx tg) := by
+  have hC : 0 < d.C := by have := hmy.2.1; omega
+  have hle : d.G ≤ d.C * d.B := Nat.le_trans hGB (Nat.le_mul_of_pos_left d.B hC)
+  exact DConnected_linked_of_le d hle _ _ _ (dragonfly_connected d my tg hmy htg hGB)
+
+/-- non-vacuity: 2 groups x 2 chassis x 2 routers: the tables are wired as `peer` says, and router (0,1,0) -> (1,1,1) takes
+all five hops green, black, blue, green, black -/
+example : (⟨2, 2, 2, 1, false, false, true, 0⟩ : Dragonfly).wiringOk = true := by decide
+example : (⟨3, 2, 3, 2, true, true, false, 7⟩ : Dragonfly).wiringOk = true := wiringOk_of_le _ (by decide)
+example : ((⟨2, 2, 2, 1, false, false, true, 0⟩ : Dragonfly).steps ⟨0, 1, 0⟩ ⟨1, 1, 1⟩).map (fun s => (s.owner, s.slot)) =
+    [(2, .green 1), (3, .black 0), (1, .blue), (4, .green 1), (5, .black 1)] := by decide
+example : (⟨1, 1, 1⟩ : RCoord).InRange ⟨2, 2, 2, 1, false, false, true, 0⟩ := by unfold RCoord.InRange; decide
+
+/-! ## Fat tree (FatTreeZone::get_local_route)
+
+For ALL well-formed parameters `f.WF` (levels >= 1; every down / up fan-out and link multiplicity >= 1; any static offsets)
+and every table `t` that is well formed in the sense of `FTables.WF f t` (= the executable `FTables.wfCheck f t`,
+`FTables.wfCheck_sound`): ports lead to links, links to nodes one level up / down whose label differs from the current
+node's in the digit of that level only, leaf labels are in range and distinct.  `fattree_build_wf`: the modelled
+construction `f.build` (add_processing_node / generate_switches / generate_labels / connect_node_to_parents) IS well
+formed for all well-formed parameters, so `fattree_build_route` states everything about the construction itself.
+The routing loops (up `while`, down `while` with its inner `for` that does not `break`) are covered for every such
+table: no bound on levels, fan-outs, multiplicities. -/
+
+/-- **up to the nearest common ancestor, then down**: for two leaves `src`, `dst` (not answered by the loopback) the route is
+`ru ++ rd ++ limiter(dst)` where `ru` renders `k` tree edges going UP from `src` (each taken from the `parents` array of
+the node the previous one arrived at) and `rd` renders `k` tree edges going DOWN to `dst` (each from the `children`
+array of the node reached), `k = ncaLevel` = 1 + the highest label digit where the two leaves differ (`ncaLevel_is_nca`).
+`renderUp`/`renderDown` put the limiter of the node a hop leaves before an up link / after a down link. -/
+theorem fattree_up_to_nca_then_down (f : FatTree) (t : FTables) (hf : f.WF) (hwf : t.WF f) (src dst : Nat) (s d : FNode)
+    (hs : t.nodes[src]? = some s) (hd : t.nodes[dst]? = some d) (hs0 : s.level = 0) (hd0 : d.level = 0)
+    (hlb : ¬ (s.id = d.id ∧ f.lb = true)) :
+    ∃ ups downs ru rd top,
+      ups.length = ncaLevel s.label d.label f.levels ∧ downs.length = ncaLevel s.label d.label f.levels ∧
+      UpPath t src ups top ∧ DownPath t top downs dst ∧
+      f.renderUp t ups = some ru ∧ f.renderDown t downs = some rd ∧
+      f.route t src dst = some (ru ++ rd ++ f.limiterOf d) := by
+  obtain ⟨k1, k2, k3, k4⟩ := ncaLevel_spec s.label d.label f.levels
+  have hL : 0 < f.levels := hf.1
+  obtain ⟨ups, ru, top, tn, u1, u2, u3, u4, u5, u6, u7⟩ :=
+    upLoop_spec f t hf hwf s d hd0 (ncaLevel s.label d.label f.levels) (by omega)
+      (fun j hj hjL => k3 j hj hjL) k4 (ncaLevel s.label d.label f.levels) (f.levels + 1) src s [] hs
+      (fun _ _ _ => rfl) (by omega) k1 (by omega)
+  obtain ⟨downs, rd, d1, d2, d3, d4⟩ :=
+    downLoop_spec f t hf hwf s.position d dst hd hd0 (f.levels + 1) top tn ([] ++ ru) u5 (by rw [u6]; exact u7) (by omega)
+  refine ⟨ups, downs, ru, rd, top, u3, by omega, u4, d4, u1, d1, ?_⟩
+  simp only [List.nil_append] at u2 d2
+  unfold FatTree.route
+  simp only [hs, hd, hs0, hd0, ne_eq, not_true_eq_false, or_self, if_false, hlb, u2, d2]
+
+/-- **reaches the destination**: the tree edges of the route chain from `src` up to a node `top` and from `top` down to
+`dst` (each edge is stored in the port array of the node it leaves) -/
+theorem fattree_reaches_dst (f : FatTree) (t : FTables) (hf : f.WF) (hwf : t.WF f) (src dst : Nat) (s d : FNode)
+    (hs : t.nodes[src]? = some s) (hd : t.nodes[dst]? = some d) (hs0 : s.level = 0) (hd0 : d.level = 0)
+    (hlb : ¬ (s.id = d.id ∧ f.lb = true)) :
+    ∃ r ups downs top, f.route t src dst = some r ∧ UpPath t src ups top ∧ DownPath t top downs dst ∧
+      ∃ ru rd, f.renderUp t ups = some ru ∧ f.renderDown t downs = some rd ∧ r = ru ++ rd ++ f.limiterOf d := by
+  obtain ⟨ups, downs, ru, rd, top, _, _, h3, h4, h5, h6, h7⟩ :=
+    fattree_up_to_nca_then_down f t hf hwf src dst s d hs hd hs0 hd0 hlb
+  exact ⟨_, ups, downs, top, h7, h3, h4, ru, rd, h5, h6, rfl⟩
+
+/-- **k UP links then k DOWN links, length 2k**: the route is `ru ++ rd ++ limiter(dst)`; `ru` holds exactly `k` cables, all
+UP halves, `rd` exactly `k` cables, all DOWN halves (`k = ncaLevel`); without limiters the route has exactly `2k` links,
+with limiters `4k + 1` (one limiter per hop, for the node the hop leaves, plus the destination's) -/
+theorem fattree_link_count (f : FatTree) (t : FTables) (hf : f.WF) (hwf : t.WF f) (src dst : Nat) (s d : FNode)
+    (hs : t.nodes[src]? = some s) (hd : t.nodes[dst]? = some d) (hs0 : s.level = 0) (hd0 : d.level = 0)
+    (hlb : ¬ (s.id = d.id ∧ f.lb = true)) :
+    ∃ ru rd, f.route t src dst = some (ru ++ rd ++ f.limiterOf d) ∧
+      (ru.filter FTLink.isCable).length = ncaLevel s.label d.label f.levels ∧
+      (∀ x ∈ ru, x.isCable = true → x.isUpCable = true) ∧
+      (rd.filter FTLink.isCable).length = ncaLevel s.label d.label f.levels ∧
+      (∀ x ∈ rd, x.isCable = true → x.isDownCable = true) ∧
+      (ru ++ rd ++ f.limiterOf d).length =
+        if f.lim then 4 * ncaLevel s.label d.label f.levels + 1 else 2 * ncaLevel s.label d.label f.levels := by
+  obtain ⟨ups, downs, ru, rd, top, h1, h2, _, _, h5, h6, h7⟩ :=
+    fattree_up_to_nca_then_down f t hf hwf src dst s d hs hd hs0 hd0 hlb
+  obtain ⟨a1, a2, a3⟩ := renderUp_shape f t ups ru h5
+  obtain ⟨b1, b2, b3⟩ := renderDown_shape f t downs rd h6
+  refine ⟨ru, rd, h7, by omega, a2, by omega, b2, ?_⟩
+  simp only [List.length_append, a3, b3, limiterOf_length, h1, h2]
+  split <;> omega
+
+/-- **`ncaLevel` is the level of the nearest common ancestor**: `k = ncaLevel a b levels` is at least 1, at most `levels`,
+the labels agree on all digits `>= k` (so the ancestors of level `k` coincide: an ancestor of level `l` of a leaf keeps
+the leaf's digits `>= l`) and, when `k > 1`, they differ at digit `k - 1` (so no level below `k` has a common ancestor) -/
+theorem ncaLevel_is_nca (a b : List Nat) (levels : Nat) (h : 0 < levels) :
+    1 ≤ ncaLevel a b levels ∧ ncaLevel a b levels ≤ levels ∧
+    (∀ j, ncaLevel a b levels ≤ j → j < levels → a.getD j 0 = b.getD j 0) ∧
+    (1 < ncaLevel a b levels → a.getD (ncaLevel a b levels - 1) 0 ≠ b.getD (ncaLevel a b levels - 1) 0) := by
+  obtain ⟨k1, k2, k3, k4⟩ := ncaLevel_spec a b levels
+  exact ⟨k1, by omega, k3, k4⟩
+
+/-- **loopback**: `src = dst` with a loopback configured is answered by the loopback link alone -/
+theorem fattree_loopback (f : FatTree) (t : FTables) (src : Nat) (s : FNode) (hs : t.nodes[src]? = some s)
+    (hs0 : s.level = 0) (hlb : f.lb = true) : f.route t src src = some [.loopback s.id] := by
+  unfold FatTree.route
+  simp [hs, hs0, hlb]
+
+/-- **the modelled construction is well formed**, for ALL well-formed parameters (only extra hypothesis:
+`num_children_per_node_` has exactly `levels` entries, which the parser guarantees — needed: `nLeaves` multiplies the whole
+list while labels use the first `levels` radices; `FTBuild` has a counterexample without it): node table = levels and
+mixed-radix labels by position (`generate_labels`' counter), every stored port entry is a genuine tree edge
+(`are_related`), every port below the array size is filled. -/
+theorem fattree_build_wf (f : FatTree) (hf : f.WF) (hdown : f.down.length = f.levels) : FTables.WF f f.build :=
+  FTBuild.build_wf_of_down f hf hdown
+
+/-- **the whole statement on the construction**: for all well-formed parameters and all leaves `src, dst < nLeaves` of
+`f.build`, both are level-0 nodes and (unless answered by the loopback) the route is `k` tree edges up from `src`, `k`
+tree edges down to `dst`, `k = ncaLevel`, rendered with the limiters of the nodes the hops leave and the destination's -/
+theorem fattree_build_route (f : FatTree) (hf : f.WF) (hdown : f.down.length = f.levels) (src dst : Nat)
+    (hs : src < f.nLeaves) (hd : dst < f.nLeaves) :
+    ∃ s d, f.build.nodes[src]? = some s ∧ f.build.nodes[dst]? = some d ∧ s.level = 0 ∧ d.level = 0 ∧
+      (¬ (s.id = d.id ∧ f.lb = true) →
+        ∃ ups downs ru rd top,
+          ups.length = ncaLevel s.label d.label f.levels ∧ downs.length = ncaLevel s.label d.label f.levels ∧
+          UpPath f.build src ups top ∧ DownPath f.build top downs dst ∧
+          f.renderUp f.build ups = some ru ∧ f.renderDown f.build downs = some rd ∧
+          f.route f.build src dst = some (ru ++ rd ++ f.limiterOf d)) := by
+  have hN := FTBuild.mkNodes_ok f hf
+  have hb : FTBuild.bl f 0 = f.nLeaves := by simp [FTBuild.bl, FatTree.nodesByLevel]
+  have h0 : FTBuild.levelStart f 0 = 0 := by simp [FTBuild.levelStart]
+  obtain ⟨s, hs1, hs2, _⟩ := hN.get 0 (Nat.zero_le _) src (by rw [hb]; exact hs)
+  obtain ⟨d, hd1, hd2, _⟩ := hN.get 0 (Nat.zero_le _) dst (by rw [hb]; exact hd)
+  rw [h0, Nat.zero_add] at hs1 hd1
+  have hs1' : f.build.nodes[src]? = some s := by rw [FTBuild.build_eq]; exact hs1
+  have hd1' : f.build.nodes[dst]? = some d := by rw [FTBuild.build_eq]; exact hd1
+  refine ⟨s, d, hs1', hd1', hs2, hd2, ?_⟩
+  intro hlb
+  exact fattree_up_to_nca_then_down f f.build hf (fattree_build_wf f hf hdown) src dst s d hs1' hd1' hs2 hd2 hlb
+
+/-- non-vacuity: 2 levels, 2x2 leaves, 1 then 2 parents, 1 then 2 parallel cables, limiters: the construction is well formed
+(so the theorems apply to `f.build`), and a route across the top level: 2 UP cables, 2 DOWN cables, 5 limiters -/
+example : (⟨2, [2, 2], [1, 2], [1, 2], false, true, true, 0, 0⟩ : FatTree).WF := paramsOk_sound _ (by decide)
+example : FTables.WF ⟨2, [2, 2], [1, 2], [1, 2], false, true, true, 0, 0⟩
+    (FatTree.build ⟨2, [2, 2], [1, 2], [1, 2], false, true, true, 0, 0⟩) := FTables.wfCheck_sound _ _ (by decide)
+example : (FatTree.route ⟨2, [2, 2], [1, 2], [1, 2], false, true, true, 0, 0⟩
+    (FatTree.build ⟨2, [2, 2], [1, 2], [1, 2], false, true, true, 0, 0⟩) 0 3).map (·.length) = some 9 := by decide
+example : ncaLevel [0, 0] [1, 1] 2 = 2 := by decide
+example : (FatTree.route ⟨2, [2, 2], [1, 2], [1, 2], true, true, true, 0, 0⟩
+    (FatTree.build ⟨2, [2, 2], [1, 2], [1, 2], true, true, true, 0, 0⟩) 1 1) = some [.loopback 1] := by decide
 
 end SgVerif.C26
